@@ -181,6 +181,7 @@ type c10Peer struct {
 	sends  []*c10Send // actually sent, in order
 	pongs  int
 	failed bool
+	dead   func() bool
 }
 
 func coqAddr(a *net.UDPAddr) string {
@@ -443,9 +444,18 @@ func (p *c10Peer) await(sc *c10Sched, dst *net.UDPAddr, want func(w wireMsg) boo
 	buf := make([]byte, 70000)
 	deadline := time.Now().Add(c10Wait)
 	for {
-		_ = p.conn.SetReadDeadline(deadline)
+		// wait in slices so that a server that has stopped ends the wait at once (Serve returning is an
+		// observable of the run, not a reason to sit out every watchdog)
+		slice := time.Now().Add(250 * time.Millisecond)
+		if slice.After(deadline) {
+			slice = deadline
+		}
+		_ = p.conn.SetReadDeadline(slice)
 		n, _, err := p.conn.ReadFromUDP(buf)
 		if err != nil {
+			if ne, ok := err.(net.Error); ok && ne.Timeout() && time.Now().Before(deadline) && !(p.dead != nil && p.dead()) {
+				continue
+			}
 			return nil
 		}
 		w := decodeWire(append([]byte{}, buf[:n]...))
@@ -525,6 +535,7 @@ func parseC10UDP(s string) (c10UDPParams, bool) {
 }
 
 type c10UDPResult struct {
+	alive    bool
 	coq      string
 	clean    bool // no watchdog fired
 	errDgram int
@@ -555,7 +566,7 @@ func c10RunUDP(q c10UDPParams) (c10UDPResult, error) {
 		if err != nil {
 			return res, err
 		}
-		p := &c10Peer{idx: i, good: i < q.good, conn: c, addr: c.LocalAddr().(*net.UDPAddr)}
+		p := &c10Peer{idx: i, good: i < q.good, conn: c, addr: c.LocalAddr().(*net.UDPAddr), dead: func() bool { return !srv.alive() }}
 		if p.good {
 			p.script = c10GoodScript(rng.Fork(), i, q.nreq)
 			if firstTok == nil {
@@ -587,10 +598,11 @@ func c10RunUDP(q c10UDPParams) (c10UDPResult, error) {
 	}
 	wg.Wait()
 	alive := srv.alive()
+	res.alive = alive
 	// a fresh client is still served
 	probe := false
 	if pc, err := net.ListenUDP("udp4", &net.UDPAddr{IP: net.IPv4(127, 0, 0, 1), Port: 0}); err == nil {
-		pp := &c10Peer{idx: -1, conn: pc}
+		pp := &c10Peer{idx: -1, conn: pc, dead: func() bool { return !srv.alive() }}
 		tok := []byte{0xEE, 0x01}
 		_, _ = pc.WriteToUDP(encodeWire(0, 1, 7, tok, message.Options{{ID: message.URIPath, Value: []byte("a")}}, nil), dst)
 		w := pp.await(&c10Sched{}, dst, func(w wireMsg) bool { return bytes.Equal(w.Tok, tok) }, false)
@@ -675,12 +687,12 @@ func runC10(a runArgs) error {
 	for _, q := range plan {
 		var res c10UDPResult
 		var err error
-		for attempt := 0; attempt < 3; attempt++ {
+		for attempt := 0; attempt < 2; attempt++ {
 			res, err = c10RunUDP(q)
 			if err != nil {
 				return err
 			}
-			if res.clean {
+			if res.clean || !res.alive {
 				break
 			}
 			e.Hist["rerun-after-watchdog"]++
@@ -694,6 +706,12 @@ func runC10(a runArgs) error {
 		e.Hist[fmt.Sprintf("good=%d", q.good)]++
 		e.Hist[fmt.Sprintf("bad=%d", q.bad)]++
 		e.AddW(res.coq, q.desc(), q.good >= 2 && res.errDgram > 0, 1+len(res.coq)/4000, "udp-run")
+		if !res.alive || !res.clean {
+			// Serve returned, or an awaited datagram did not come in two attempts: the deviation is
+			// established by this case, do not sit out the watchdogs of the remaining runs
+			e.Hist["stopped-early"]++
+			return e.Flush(a.out)
+		}
 	}
 	want := func(prefix string) (uint64, []string, bool) {
 		if a.only == "" {
